@@ -1,12 +1,13 @@
 """C02 continued: Runge-Kutta stage forms, second-order (Verlet) form, diagonalisation sweeper"""
 import random
+from fractions import Fraction
 
 import numpy as np
 import z3
 
 from symx import core
 from symx import pysdc as sp
-from symx.core import SymReal, SymComplex, R, rv, frac, explore, prove, satisfiable, evalf
+from symx.core import SymReal, SymComplex, R, rv, frac, explore, prove, satisfiable, evalf, Ctx
 from harness import common as cm
 from harness import sweepspec as ss
 
@@ -210,16 +211,140 @@ class SymOsc(Problem):
         return f
 
 
-def verlet_case(rep, M, qt):
-    from pySDC.implementations.sweeper_classes.verlet import verlet
+class SymOscB(Problem):
+    """the same oscillator in the interface of the Boris sweeper: eval_f returns fields (electric part -k x, NO magnetic field), build_f turns them into
+    an acceleration, boris_solver follows the documented contract for B = 0: v_new = v_old + dt (E_old + E_new)/2 + c"""
 
+    def __init__(self, k, dtype=sp.ODT):
+        from pySDC.implementations.datatype_classes.particles import particles, fields
+
+        self.dtype_u = particles
+        self.dtype_f = fields
+        super().__init__(init=((1, 1), None, dtype))
+        self.k = k
+
+    def eval_f(self, u, t):
+        f = self.dtype_f(self.init, val=0.0)
+        f.elec[:] = u.pos * (-1) * self.k
+        return f
+
+    def build_f(self, f, part, t):
+        from pySDC.implementations.datatype_classes.particles import acceleration
+
+        rhs = acceleration(self.init)
+        rhs[:] = f.elec
+        return rhs
+
+    def boris_solver(self, c, dt, old_fields, new_fields, old_parts):
+        from pySDC.implementations.datatype_classes.particles import particles
+
+        vel = particles.velocity(self.init)
+        vel[:] = old_parts.vel + (old_fields.elec + new_fields.elec) * dt * frac(0.5) + c
+        return vel
+
+
+def rkn_case(rep):
+    """Runge-Kutta-Nystrom sweeper (class RKN): the step equals the textbook Nystrom form built from the class tableau
+    k_i = f(x0 + c_i dt v0 + dt^2 sum_j abar_ij k_j),  x1 = x0 + dt v0 + dt^2 sum_i bbar_i k_i,  v1 = v0 + dt sum_i b_i k_i   (symbolic x0, v0, dt, k)"""
+    from pySDC.implementations.sweeper_classes.Runge_Kutta_Nystrom import RKN, RungeKuttaNystrom
+
+    rep.func(RungeKuttaNystrom.update_nodes, RungeKuttaNystrom.compute_end_point)
+    name = 'rkn/RKN'
+    kv, dtv, p0, v0 = z3.Reals('k dt p0 v0')
+
+    def run(dt, k, x, v, float_mode=False):
+        L = cm.make_level(SymOscB, {'k': k, 'dtype': (np.dtype('float64') if float_mode else sp.ODT)}, RKN, {}, dt)
+        P = L.prob
+        L.sweep.predict()
+        u = P.dtype_u(P.init)
+        u.pos[:] = x
+        u.vel[:] = v
+        L.u[0] = u
+        L.f[0] = P.eval_f(u, 0.0)
+        L.sweep.update_nodes()
+        L.sweep.compute_end_point()
+        return L.uend.pos.ravel()[0], L.uend.vel.ravel()[0]
+
+    c = Ctx()
+    Ctx.cur = c
+    try:
+        c.add(dtv > 0)
+        ep, ev = run(SymReal(dtv), SymReal(kv), SymReal(p0), SymReal(v0))
+        ep, ev = R(ep), R(ev)
+    finally:
+        Ctx.cur = None
+    rep.paths += 1
+    cN, b, bbar, Abar = RKN.nodes, RKN.weights, RKN.weights_bar, RKN.matrix_bar
+    ks = []
+    for i in range(len(cN)):
+        xi = p0 + rv(cN[i]) * dtv * v0 + dtv * dtv * sum((rv(Abar[i, j]) * ks[j] for j in range(i)), rv(0))
+        ks.append(-kv * xi)
+    sp_pos = p0 + dtv * v0 + dtv * dtv * sum((rv(bbar[i]) * ks[i] for i in range(len(cN))), rv(0))
+    sp_vel = v0 + dtv * sum((rv(b[i]) * ks[i] for i in range(len(cN))), rv(0))
+    for clause, goal in (('position', ep == sp_pos), ('velocity', ev == sp_vel)):
+        res, model = prove(goal, [dtv > 0], timeout_ms=120000, name=f'{name}:{clause}')
+        rep.ob(f'{name}:{clause}', res)
+        if res == 'sat':
+            rep.replayed += 1
+            env = cm.model_env(model, [kv, dtv, p0, v0])
+            fp, fv = run(env['dt'], env['k'], env['p0'], env['v0'], float_mode=True)
+            exp = evalf(sp_pos if clause == 'position' else sp_vel, env)
+            got = float(fp if clause == 'position' else fv)
+            if abs(got - exp) > 1e-9 * (1 + abs(exp)):
+                rep.violation(f'{PID}/rkn/{clause}', f'{name}: end {clause} {got!r} differs from the Nystrom form {exp!r} for {env}', {'task': ['rkn'], 'clause': clause, 'env': env})
+            else:
+                rep.unreproduced(f'{name}:{clause}', env)
+    res, _ = prove(ep == sp_pos + dtv * dtv * dtv * rv(1e-6) * kv * v0, [dtv > 0], name=f'{name}:mutated', kind='vacuity')
+    rep.vac(f'{name}:mutated-spec-refuted', res, 'sat')
+    # order of the scheme on the oscillator: exact Taylor coefficients in dt of the symbolic result against the cos / sin series through dt^4
+    from harness.c04 import series_of, Series, ZS
+    import math as _m
+
+    for (kk, x0, w0) in ((1, 1, 0), (1, 0, 1), (2, 1, 1), (Fraction(1, 2), -1, 2)):
+        vm = {'dt': ZS, 'k': Series.const(kk), 'p0': Series.const(x0), 'v0': Series.const(w0)}
+        sx, sv = series_of(ep, vm), series_of(ev, vm)
+        # x(t) = x0 cos(w t) + v0/w sin(w t), w^2 = k:  coefficients in t
+        ex = [Fraction(0)] * 5
+        exv = [Fraction(0)] * 5
+        for n in range(5):
+            if n % 2 == 0:
+                ex[n] = Fraction(x0) * (-1) ** (n // 2) * Fraction(kk) ** (n // 2) / _m.factorial(n)
+                exv[n] = Fraction(w0) * (-1) ** (n // 2) * Fraction(kk) ** (n // 2) / _m.factorial(n)
+            else:
+                ex[n] = Fraction(w0) * (-1) ** ((n - 1) // 2) * Fraction(kk) ** ((n - 1) // 2) / _m.factorial(n)
+                exv[n] = Fraction(x0) * (-1) ** ((n + 1) // 2) * Fraction(kk) ** ((n + 1) // 2) / _m.factorial(n)
+        tolc = Fraction(1, 10**12)
+        okx = all(abs(sx.c[n] - ex[n]) <= tolc for n in range(5))
+        okv = all(abs(sv.c[n] - exv[n]) <= tolc for n in range(5))
+        rep.side(f'{name}:order-4/k{kk}/x{x0}/v{w0}', okx and okv, {'position_coefficients': [float(x) for x in sx.c[:6]], 'velocity_coefficients': [float(x) for x in sv.c[:6]]})
+    rng = random.Random(rep.seed + 3)
+    for _ in range(2):
+        env = {'k': rng.uniform(0.5, 2), 'dt': rng.uniform(0.05, 0.3), 'p0': rng.uniform(-1, 1), 'v0': rng.uniform(-1, 1)}
+        fp, fv = run(env['dt'], env['k'], env['p0'], env['v0'], float_mode=True)
+        rep.translator += 1
+        if not (cm.rel_close(evalf(ep, env), float(fp), 1e-9) and cm.rel_close(evalf(ev, env), float(fv), 1e-9)):
+            rep.error(f'translator validation failed for {name}')
+    rep.sample({'case': name, 'free_variables': 'x0, v0, dt, k'})
+
+
+def verlet_case(rep, M, qt, kind='verlet'):
+    from pySDC.implementations.sweeper_classes.verlet import verlet as verlet_cls
+    from pySDC.implementations.sweeper_classes.boris_2nd_order import boris_2nd_order
+
+    verlet = verlet_cls if kind == 'verlet' else boris_2nd_order
+    SymOsc_ = SymOsc if kind == 'verlet' else SymOscB
+    j0 = 1 if kind == 'verlet' else 0  # the Boris sweeper also carries the column of the start value (explicit part)
     rep.func(verlet.update_nodes, verlet.integrate, verlet.compute_end_point)
-    name = f'verlet/M{M}/{qt}'
+    name = f'{kind}/M{M}/{qt}'
     kv, dtv = z3.Real('k'), z3.Real('dt')
+    if kind == 'boris':
+        # the Boris sweeper multiplies its node-to-node matrices in floats (SQ = S Q): its update equals the 0-to-node form only up to rounding, so the
+        # claim carries a tolerance; coefficient and step size are concrete there (the query stays linear), the data are symbolic in the unit box
+        kv, dtv = rv(frac(1.5)), rv(frac(0.25))
     V = {}
 
     def setup(dt, k, vals, float_mode=False):
-        L = cm.make_level(SymOsc, {'k': k, 'dtype': (np.dtype('float64') if float_mode else sp.ODT)}, verlet,
+        L = cm.make_level(SymOsc_, {'k': k, 'dtype': (np.dtype('float64') if float_mode else sp.ODT)}, verlet,
                           {'num_nodes': M, 'quad_type': qt}, dt)
         P = L.prob
         for m in range(M + 1):
@@ -249,7 +374,7 @@ def verlet_case(rep, M, qt):
         vel = [R(L.u[m].vel.ravel()[0]) for m in range(1, M + 1)]
         sw.compute_end_point()
         return dict(mats=mats, pos=pos, vel=vel, ep=R(L.uend.pos.ravel()[0]), ev=R(L.uend.vel.ravel()[0]),
-                    copy=bool(sw.coll.right_is_node and not sw.params.do_coll_update))
+                    copy=bool(kind == 'verlet' and sw.coll.right_is_node and not sw.params.do_coll_update))
 
     paths = explore(fn)
     rep.paths += len(paths)
@@ -258,17 +383,17 @@ def verlet_case(rep, M, qt):
         mt = r['mats']
         Q, QT, Qx, QQ = mt['Q'], mt['QT'], mt['Qx'], mt['QQ']
         fold = [-kv * zv[f'p{m}'] for m in range(M + 1)]
-        fnew = [None] + [-kv * x for x in r['pos']]
+        fnew = [fold[0]] + [-kv * x for x in r['pos']]
         eqs = []
         for m in range(1, M + 1):
             ps = zv['p0'] + zv[f'tp{m-1}']
             vs = zv['v0'] + zv[f'tv{m-1}']
-            for j in range(1, M + 1):
+            for j in range(j0, M + 1):
                 ps = ps + dtv * rv(Q[m, j]) * zv['v0'] + dtv * dtv * (rv(QQ[m, j]) - rv(Qx[m, j])) * fold[j]
                 vs = vs + dtv * (rv(Q[m, j]) - rv(QT[m, j])) * fold[j]
-            for j in range(1, m):
+            for j in range(j0, m):
                 ps = ps + dtv * dtv * rv(Qx[m, j]) * fnew[j]
-            for j in range(1, m + 1):
+            for j in range(j0, m + 1):
                 vs = vs + dtv * rv(QT[m, j]) * fnew[j]
             eqs += [r['pos'][m - 1] == ps, r['vel'][m - 1] == vs]
         if r['copy']:
@@ -280,11 +405,19 @@ def verlet_case(rep, M, qt):
                 ev = ev + dtv * rv(mt['w'][m]) * fnew[m + 1]
             end = [r['ep'] == ep, r['ev'] == ev]
         assumptions = list(p.assume) + list(p.pc)
-        for clause, goal in (('update_nodes', z3.And(eqs)), ('end_point', z3.And(end))):
+        goals = (('update_nodes', z3.And(eqs)), ('end_point', z3.And(end)))
+        if kind == 'boris':
+            tol = rv(1e-12)
+            within = lambda e: z3.And(e.arg(0) - e.arg(1) <= tol, e.arg(1) - e.arg(0) <= tol)
+            goals = (('update_nodes', z3.And([within(e) for e in eqs])), ('end_point', z3.And([within(e) for e in end])))
+            assumptions = assumptions + [z3.And(v >= -1, v <= 1) for v in zv.values()]
+        for clause, goal in goals:
             res, model = prove(goal, assumptions, timeout_ms=120000, name=f'{name}:{clause}')
             rep.ob(f'{name}:{clause}', res)
             if res == 'sat':
-                env = cm.model_env(model, list(zv.values()) + [kv, dtv])
+                env = cm.model_env(model, list(zv.values()) + ([kv, dtv] if kind == 'verlet' else []))
+                if kind == 'boris':
+                    env.update(k=1.5, dt=0.25)
                 # replay on the float particles type
                 rep.replayed += 1
                 Lf = setup(env['dt'], env['k'], {n: env[n] for n in names}, float_mode=True)
@@ -305,8 +438,8 @@ def verlet_case(rep, M, qt):
                     continue
                 dev = max(abs(a - b) for a, b in zip(obs, exp))
                 if dev > 1e-8 * (1 + max(abs(x) for x in exp)):
-                    rep.violation(f'{PID}/verlet/{clause}', f'{name}: second-order sweep deviates from its matrix form by {dev:.3e}',
-                                  {'task': ['verlet', M, qt], 'clause': clause, 'env': env, 'observed': obs, 'expected': exp})
+                    rep.violation(f'{PID}/{kind}/{clause}', f'{name}: second-order sweep deviates from its matrix form by {dev:.3e}',
+                                  {'task': [kind, M, qt], 'clause': clause, 'env': env, 'observed': obs, 'expected': exp})
                 else:
                     rep.unreproduced(f'{name}:{clause}', {'env': env, 'observed': obs, 'expected': exp})
         # vacuity / sensitivity
@@ -327,8 +460,8 @@ def verlet_case(rep, M, qt):
         rng = random.Random(M * 17 + rep.seed)
         for _ in range(2):
             env = {n: rng.uniform(-1, 1) for n in names}
-            env['k'] = rng.uniform(0.5, 2)
-            env['dt'] = rng.uniform(0.05, 0.5)
+            env['k'] = rng.uniform(0.5, 2) if kind == 'verlet' else 1.5
+            env['dt'] = rng.uniform(0.05, 0.5) if kind == 'verlet' else 0.25
             Lf = setup(env['dt'], env['k'], {n: env[n] for n in names}, float_mode=True)
             Lf.sweep.update_nodes()
             ref = [float(Lf.u[m].pos.ravel()[0]) for m in range(1, M + 1)] + [float(Lf.u[m].vel.ravel()[0]) for m in range(1, M + 1)]
